@@ -183,6 +183,12 @@ def run(ctx: Ctx):
                 got = (p.code_name(code), state, view_snap(snap), hk)
                 want = (exp["code"], exp["state"], view(mach, exp["store"]), exp["hooks"])
                 diffs = [n for n, a, b in zip(("code", "state", "outputs", "hooks"), got, want) if a != b]
+                if diffs == ["code"] and exp.get("done_now") == "via-break" and got[0] == "OK":
+                    # the machine reaches its final state through a break: the C reports DONE on the following call instead of at once
+                    # (the same postponement strict-done generation makes everywhere); judged under C10, not a mis-translation
+                    ctx.count("done_postponed_after_break")
+                    diffs = []
+                    adv = None
                 if not diffs and adv is not None and not exp["code"].startswith("YIELD"):
                     want_adv = 1 if (exp["consumed"] and exp["code"] == "OK") else 0
                     if adv != want_adv:
